@@ -209,7 +209,21 @@ impl Pager {
             .truncate(false)
             .open(&path)?;
 
-        if !existed || file.metadata()?.len() == 0 {
+        // A crash during the very first open leaves a file that is still empty, shorter than the
+        // two header pages, or sized but with an all-zero meta page. None of these can hold data:
+        // finish the initialisation instead of refusing to open.
+        let uninitialised = {
+            let len = file.metadata()?.len();
+            if len < (PAGE_SIZE * 2) as u64 {
+                true
+            } else {
+                let mut meta_page = [0u8; PAGE_SIZE];
+                read_page_raw(&file, META_PAGE_ID, &mut meta_page)?;
+                meta_page.iter().all(|b| *b == 0)
+            }
+        };
+
+        if !existed || uninitialised {
             let meta = Meta::new();
             let bitmap = Bitmap::new();
             #[cfg(nervusdb_verif)]
@@ -230,10 +244,6 @@ impl Pager {
             };
             pager.flush_meta_and_bitmap()?;
             return Ok(pager);
-        }
-
-        if file.metadata()?.len() < (PAGE_SIZE * 2) as u64 {
-            return Err(Error::WalProtocol("ndb file too small"));
         }
 
         let mut meta_page = [0u8; PAGE_SIZE];
